@@ -145,6 +145,86 @@ def fstatSize (o : FileObj β) (_fd : Fd) : Res Int (FileObj β) :=
 
 end FileObj
 
+/-! ## 1b. the abstract codec file: `codecs.EncodedFile(stream, data_encoding='utf-8')`
+
+What `SpooledStringIO` holds in `_buffer` is a `codecs.StreamRecoder` over a BytesIO / temporary file.  It is the hand
+model's pair (stream `File CU`, transliterated `codecs.StreamReader` `C18.Reader`); the operations below ARE the
+model's (`Reader.read`, `Reader.readline`, `File.write`, the `bseek` reset), under Python's calling convention.
+`PyExc.Other` = not specified: a closed file (the methods check `closed` first), a decoding error (the model only
+sets its `bad` flag; Python raises UnicodeDecodeError), `reader.read(size, chars)` with `size ≠ chars`, a sized
+`readline` (the hand model has none), a negative seek, a write past the end of the stream. -/
+
+deriving instance DecidableEq for C18.Reader
+
+structure CFile where
+  st : File C18.CU
+  rd : C18.Reader := {}
+  closed : Bool := false
+  real : Bool := false
+deriving Repr, DecidableEq
+
+namespace CFile
+open C18 (Reader CU)
+
+/-- `EncodedFile(BytesIO(), data_encoding='utf-8')` -/
+def newMem : CFile := ⟨File.empty, {}, false, false⟩
+/-- `EncodedFile(TemporaryFile(dir=…), data_encoding='utf-8')` -/
+def newReal : CFile := ⟨File.empty, {}, false, true⟩
+instance : Inhabited CFile := ⟨newMem⟩
+
+def isClosed (o : CFile) : Res Bool CFile := (.ok o.closed, o)
+/-- `isinstance(o.stream, BytesIO)` -/
+def isMem (o : CFile) : Res Bool CFile := (.ok (!o.real), o)
+
+/-- `o.reader.read(size, chars)` with `size = chars`: `Reader.read` (`none` for a negative size) -/
+def read (o : CFile) (size chars : Int) : Res (List Char) CFile :=
+  if o.closed ∨ size ≠ chars then (.error .Other, o)
+  else
+    let r := Reader.read o.st o.rd (if size < 0 then none else some size.toNat)
+    if r.2.2.bad then (.error .Other, { o with st := r.2.1, rd := r.2.2 })
+    else (.ok r.1, { o with st := r.2.1, rd := r.2.2 })
+
+/-- `o.tell()`: the position of the stream -/
+def tell (o : CFile) : Res Int CFile :=
+  if o.closed then (.error .ValueError, o) else (.ok (o.st.pos : Int), o)
+
+/-- `o.write(bytes)`: the bytes go to the stream at its position (decoding and re-encoding valid UTF-8 is the identity);
+    the reader's buffers are not touched; writing nothing changes nothing -/
+def write (o : CFile) (b : List CU) : Res Unit CFile :=
+  if o.closed then (.error .ValueError, o)
+  else if b.isEmpty then (.ok (), o)
+  else if o.st.data.length < o.st.pos then (.error .Other, o)     -- a gap: Python pads with NUL bytes, `File.write` with `default`
+  else (.ok (), { o with st := o.st.write b })
+
+/-- `o.seek(p)`: raw seek of the stream, the codec buffers are reset (`SStr.bseek`) -/
+def seek (o : CFile) (p : Int) : Res Unit CFile :=
+  if o.closed then (.error .ValueError, o)
+  else if p < 0 then (.error .Other, o)
+  else (.ok (), { o with st := o.st.seek p.toNat, rd := Reader.reset })
+
+/-- `o.readline(length).decode('utf-8')`: one line of the codec reader (`Reader.readline`), for `length = None` -/
+def readlineText (o : CFile) (length : Option Int) : Res (List Char) CFile :=
+  if o.closed ∨ length.isSome then (.error .Other, o)
+  else
+    let r := Reader.readline o.st o.rd
+    if r.2.2.bad then (.error .Other, { o with st := r.2.1, rd := r.2.2 })
+    else (.ok r.1, { o with st := r.2.1, rd := r.2.2 })
+
+/-- `o.getvalue()` (a BytesIO underneath) -/
+def getvalue (o : CFile) : Res (List CU) CFile :=
+  if o.real then (.error .Other, o)
+  else if o.closed then (.error .ValueError, o) else (.ok o.st.data, o)
+
+def close (o : CFile) : Res Unit CFile := (.ok (), { o with closed := true })
+
+end CFile
+
+/-- `x and x[-1] not in '<chars>'` (evaluated only for a non-empty `x`) -/
+def lastNotIn (x : List Char) (cs : List Char) : Bool :=
+  match x.getLast? with
+  | some c => !cs.contains c
+  | none => false
+
 /-- newline test of `io.BytesIO.readline` -/
 def isNL : UInt8 → Bool := C18.isNL
 
